@@ -159,6 +159,24 @@ V('c12-declared-qualifier-propagated', 'C12', 'C12.R6',
   (RESF, "                        new_quals[inh_qname].propagated = False\n",
          "                        new_quals[inh_qname].propagated = True\n"), 'propagated')
 
+MAINF = 'pywbem_mock/_mainprovider.py'
+V('c13-role-on-result-end', 'C13', 'C13.R4',
+  (MAINF, "                        if result_role and prop.name.lower() != result_role:\n                            continue\n                        rtn_instpaths.add(prop.value)",
+          "                        if role and prop.name.lower() == role:\n                            continue\n                        rtn_instpaths.add(prop.value)"),
+  'wrong-end')
+V('c13-filter-none-filters', 'C13', 'C13.R4',
+  (MAINF, "            if role and prop.name.lower() != role:\n                return False\n            return True",
+          "            if prop.name.lower() != role:\n                return False\n            return True"),
+  'filter-role')
+V('c13-assoc-adds-source-end', 'C13', 'C13.R4',
+  (MAINF, "                        if role and prop.name.lower() != role:\n                            continue\n                    else:",
+          "                        if role and prop.name.lower() != role:\n                            continue\n                        rtn_instpaths.add(prop.value)\n                    else:"),
+  'other-end')
+V('c13-filter-adds', 'C13', 'C13.R4',
+  (MAINF, "                        if result_class:\n                            if inst.classname.lower() not in resultclasses:\n                                continue\n",
+          "                        if result_class:\n                            if inst.classname.lower() not in resultclasses:\n                                continue\n                            rtn_instpaths.add(inst.path)\n"),
+  'filter-result_class')
+
 # ---- C04 ------------------------------------------------------------------
 OPSF = 'pywbem/_cim_operations.py'
 MOCKF = 'pywbem_mock/_wbemconnection_mock.py'
